@@ -8,6 +8,7 @@ From Coq Require Import List Arith Bool.
 Require Import TT.Model.Str TT.Model.C06Serde TT.Spec.C06SerdeRule.
 Require Import TT.Model.C06Print TT.Spec.TsLex TT.Spec.TsModule TT.Spec.C06Keys.
 Require Import TT.Proofs.C06Strings TT.Proofs.C06Proofs TT.Proofs.C06Main TT.Proofs.C06Print.
+Require Import TT.Proofs.LexFacts TT.Proofs.C06Lists.
 Import ListNotations.
 Local Open Scope list_scope.
 
@@ -68,6 +69,53 @@ Theorem C06_union_reads_back : forall names rest, names <> [] ->
   exists t, ptype (union_toks names ++ P ";" :: rest) = Some (t, P ";" :: rest) /\ lits_of_ty t = Some names.
 Proof. exact union_reads_back. Qed.
 
+(* deepening round 7. The escape functions as written (five sequential replaces) are the character-wise
+   map, so every string-level theorem above speaks about the text the code prints *)
+Theorem C06_escape_code_charwise : forall s : str, escape_js_code s = escape_js s.
+Proof. exact escape_code_charwise. Qed.
+(* whole member lists. x = (member, tokens of the text after its colon, the parsed value). For every list of
+   members whose bare keys are made of identifier bytes and whose value text lexes in front of the separator:
+   the interface body / the z.object body lexes to the member tokens followed by the closing tokens *)
+Theorem C06_lex_interface_body : forall l : list (member * (list tk * ty)),
+  Forall (fun x => key_choice_ok x /\ lexes semi_next (m_value (fst x)) (fst (snd x))) l ->
+  lexes T (interface_body (map fst l)) (flat_map mtoks l ++ [P "}"]).
+Proof. exact (@lex_interface_body ty). Qed.
+Theorem C06_lex_zobject_body : forall l : list (member * (list tk * ex)),
+  Forall (fun x => key_choice_ok x /\ lexes comma_next (m_value (fst x)) (fst (snd x))) l ->
+  lexes T (zobject_body (map fst l)) (flat_map ptoks l ++ [P "}"; P ")"; P ";"]).
+Proof. exact (@lex_zobject_body ex). Qed.
+(* and when the type parser reads each value as one unit in front of the semicolon, pmembers (the entry point
+   of the item parser after the opening brace) returns one member per printed member, in order, and the keys
+   the reader of Spec/C06Keys takes from them are exactly the serialized names *)
+Theorem C06_interface_members_read : forall (l : list (member * (list tk * ty))) rest,
+  Forall (fun x => key_choice_ok x /\ reads ptype ";" x) l ->
+  pmembers (flat_map mtoks l ++ P "}" :: rest) = Some ((map mem_of l, []), rest) /\
+  map (fun m => key_text (fst (fst m))) (map mem_of l) = map m_name (map fst l).
+Proof. exact interface_members_read. Qed.
+(* the object literal of z.object, for whatever expression parser level rec reads the values *)
+Theorem C06_zobject_props_read : forall rec (l : list (member * (list tk * ex))) rest,
+  Forall (fun x => key_choice_ok x /\ reads rec "," x) l ->
+  p_atom rec (P "{" :: flat_map ptoks l ++ P "}" :: rest) = Some (EObj (map prop_of l), rest) /\
+  mapM (fun p : option key * ex => match fst p with Some k => Some (key_text k) | None => None end) (map prop_of l)
+  = Some (map m_name (map fst l)).
+Proof. exact zobject_props_read. Qed.
+(* the array of z.enum: text of any list of names -> tokens -> array of string literals -> exactly the names *)
+Theorem C06_lex_zenum_list : forall names, lexes T (zenum_list names) (arr_toks (map escape_js names)).
+Proof. exact lex_zenum_list. Qed.
+Theorem C06_zenum_array_read : forall rec names rest, reads_lits rec ->
+  p_atom rec (P "[" :: arr_toks (map escape_js names) ++ P "]" :: rest) = Some (EArr (map (EStr DQ) (map escape_js names)), rest) /\
+  mapM (fun x => match x with EStr _ s => Some (js_unescape s) | _ => None end) (map (EStr DQ) (map escape_js names)) = Some names.
+Proof. exact zenum_array_read. Qed.
+Theorem C06_expr_reads_lits : forall f, reads_lits (p_expr (S f)).
+Proof. exact p_expr_lit. Qed.
+Example C06_ex_members : Forall (fun x => key_choice_ok x /\ lexes semi_next (m_value (fst x)) (fst (snd x)) /\ reads ptype ";" x) ex_members
+  /\ map m_name (map fst ex_members) = [L "user-id"; L "firstName"; L "a""b\c"].
+Proof. split; [exact ex_members_ok|reflexivity]. Qed.
+Example C06_ex_props : Forall (fun x => key_choice_ok x /\ lexes comma_next (m_value (fst x)) (fst (snd x)) /\ reads (p_expr 62) "," x) ex_props.
+Proof. exact ex_props_ok. Qed.
+Example C06_ex_escape_code : escape_js_code (L "a\""b") = L "a\\\""b" /\ zenum_list [L "A"; L "b""c"] = L """A"", ""b\""c""".
+Proof. vm_compute. repeat split. Qed.
+
 (* attributes other than rename and skip (skip_serializing_if = s, default, default = s, ...) change
    nothing: two containers that differ only in such attributes emit the same names, outside the classes *)
 Theorem C06_other_attrs_inert : forall c c' : container,
@@ -85,11 +133,29 @@ Proof. exact spec_ignores_others. Qed.
    serde's field rule, the rule part of compute_variant_name (camelCase computed at the call site,
    apply_to_variant otherwise) is serde's variant rule *)
 Theorem C06_field_rule : forall (r : rule) (s : str),
-  ident_ok s = true -> apply_naming_convention r s = field_rule r s.
+  uident_ok s = true -> apply_naming_convention r s = field_rule r s.
 Proof. exact apply_field_ok. Qed.
 Theorem C06_variant_rule : forall (r : rule) (s : str),
   (match r with RCamel => variant_camel s | _ => apply_to_variant r s end) = variant_rule r s.
 Proof. exact apply_variant_ok. Qed.
+
+(* deepening round 7: item identifiers may be UTF-8 (uident_ok) under every field rule and under the PascalCase /
+   lowercase / UPPERCASE variant rules, and under camelCase when the first character is ASCII (uni_rule_ok; the
+   SnakeCase-based variant rules stay ASCII-only); C06_names and C06_names_cfg are stated on this domain.
+   The former ASCII-only domain lies inside it; ASCII identifiers are UTF-8 identifiers *)
+Theorem C06_domain_ascii : forall c : container, in_domain0 c = true ->
+  forallb (fun it => is_ascii_str (unraw (it_ident it))) (c_items c) = true -> in_domain c = true.
+Proof. exact domain_ascii. Qed.
+Theorem C06_ident_ok_uident : forall s : str, ident_ok s = true -> uident_ok s = true.
+Proof. exact ident_ok_uident. Qed.
+Example C06_ex_unicode :
+  in_domain wu_struct = true /\ kf_C06 wu_struct = false /\
+  emitted_keys default_field_case wu_struct = [L "GRößE-X"; L "NAïVE-éTé"; L "name"] /\
+  in_domain (wu_enum "UPPERCASE" "Été") = true /\ emitted_keys default_field_case (wu_enum "UPPERCASE" "Été") = [L "ÉTé"; L "DONE"] /\
+  in_domain (wu_enum "camelCase" "Naïve") = true /\ emitted_keys default_field_case (wu_enum "camelCase" "Naïve") = [L "naïve"; L "done"] /\
+  in_domain (wu_enum "snake_case" "Été") = false /\ in_domain (wu_enum "camelCase" "Été") = false /\
+  in_domain (wu_enum "snake_case" "Ete") = true.
+Proof. exact unicode_examples. Qed.
 
 (* where the repaired defect C06-1 was visible: outside rules_differ the two rules coincide *)
 Theorem C06_rules_agree : forall (r : rule) (s : str),
@@ -219,10 +285,20 @@ Print Assumptions C06_lex_literal.
 Print Assumptions C06_key_token.
 Print Assumptions C06_lex_union.
 Print Assumptions C06_union_reads_back.
+Print Assumptions C06_escape_code_charwise.
+Print Assumptions C06_lex_interface_body.
+Print Assumptions C06_lex_zobject_body.
+Print Assumptions C06_interface_members_read.
+Print Assumptions C06_zobject_props_read.
+Print Assumptions C06_lex_zenum_list.
+Print Assumptions C06_zenum_array_read.
+Print Assumptions C06_expr_reads_lits.
 Print Assumptions C06_other_attrs_inert.
 Print Assumptions C06_spec_ignores_others.
 Print Assumptions C06_field_rule.
 Print Assumptions C06_variant_rule.
+Print Assumptions C06_domain_ascii.
+Print Assumptions C06_ident_ok_uident.
 Print Assumptions C06_rules_agree.
 Print Assumptions C06_parse_rename.
 Print Assumptions C06_skip_test.
